@@ -375,7 +375,8 @@ pub fn run(ctx: &Ctx) -> Vec<Eng> {
             a
         });
         par_seqs(&mut e, NPART, depth_part, budget, |seq, e| run_case(kind, seq, e));
-        let (hz, k) = if ctx.thorough { (32, 3) } else { (16, 2) };
+        // long histories: full alphabet within 2 deviations; partner options alone within 3
+        let (hz, k) = if ctx.thorough { (32, 2) } else { (16, 2) };
         let cases = deviation_cases(hz, nsym - 1, k);
         par_cases(&mut e, &cases, budget, |c, e| {
             // default round: state A new, inner fine (symbol 1)
@@ -388,7 +389,19 @@ pub fn run(ctx: &Ctx) -> Vec<Eng> {
             e.max_depth = e.max_depth.max(hz as u64);
             e.transitions += run_case(kind, &seq, e);
         });
-        e.bounds.push_str(&format!("; plus all {}-round sequences within {} deviations of the default round", hz, k));
+        if ctx.thorough {
+            let cases = deviation_cases(hz, NPART - 1, 3);
+            par_cases(&mut e, &cases, budget, |c, e| {
+                let mut seq = vec![1usize; hz];
+                for &(p, a) in c {
+                    seq[p as usize] = if (a as usize) < 1 { 0 } else { a as usize + 1 };
+                }
+                e.executions += 1;
+                e.states += 1;
+                e.transitions += run_case(kind, &seq, e);
+            });
+        }
+        e.bounds.push_str(&format!("; plus all {}-round sequences within {} deviations of the default round over the full alphabet{}", hz, k, if ctx.thorough { " and within 3 deviations over the partner options" } else { "" }));
         out.push(e);
     }
     out
